@@ -243,6 +243,17 @@ pub struct Graph {
     pub order: Vec<(String, String)>,
 }
 
+/// the crate's `PartialEq` does not see the notation of an integer (the hex flag is layout): hexadecimal literals are
+/// compared by value
+fn norm_param(v: &str) -> String {
+    if v.len() > 2 && (v.starts_with("0x") || v.starts_with("0X")) {
+        if let Ok(n) = u64::from_str_radix(&v[2..], 16) {
+            return n.to_string();
+        }
+    }
+    v.to_string()
+}
+
 fn canon(e: &Elem, skip_name: bool, out: &mut String) {
     out.push_str(&e.tag);
     for (i, (site, v)) in e.params.iter().enumerate() {
@@ -250,7 +261,7 @@ fn canon(e: &Elem, skip_name: bool, out: &mut String) {
             out.push_str(" <name>");
         } else {
             out.push(' ');
-            out.push_str(v);
+            out.push_str(&norm_param(v));
         }
     }
     let mut cs: Vec<String> = e
@@ -494,7 +505,7 @@ fn static_body(e: &Elem, top: bool, out: &mut String) {
             }
         }
         out.push(' ');
-        out.push_str(v);
+        out.push_str(&norm_param(v));
     }
     for c in &e.children {
         out.push_str(" {");
